@@ -6,8 +6,9 @@ cd $W || exit 2
 git checkout -q -- src 2>/dev/null
 rm -f tests/verif_demo.rs examples/verif_demo.rs
 DEMO=$(python3 -c "import json;print(json.load(open('$S/meta.json'))['demo'])")
-FEAT=""; if grep -q "features shortdeck" $S/meta.json; then FEAT="--features shortdeck"; fi
-REL=""; if grep -q -- "--release" $S/meta.json; then REL="--release"; fi
+DCMD=$(python3 -c "import json;print(json.load(open('$S/meta.json')).get('demo_cmd',''))")
+FEAT=""; if echo "$DCMD" | grep -q "features shortdeck"; then FEAT="--features shortdeck"; fi
+REL=""; if echo "$DCMD" | grep -q -- "--release"; then REL="--release"; fi
 if [[ "$DEMO" == *main* ]]; then mkdir -p examples; cp $S/$DEMO examples/verif_demo.rs; RUN="cargo run --offline $REL $FEAT --example verif_demo"; else mkdir -p tests; cp $S/$DEMO tests/verif_demo.rs; RUN="cargo test --offline $REL $FEAT --test verif_demo"; fi
 echo "== clean tree: demo must pass"
 $RUN > /tmp/confirm_clean.log 2>&1; C=$?
